@@ -1770,6 +1770,8 @@ def _dump_qcschema_output(f: TextIO, data: IOData) -> dict:
         # Remove 'keep_' from protocols keys (added in IOData for readability)
         for keep in data.extra["input"]["protocols"]:
             output_dict["protocols"][keep[5:]] = data.extra["input"]["protocols"][keep]
+    if "success" in data.extra["output"]:
+        output_dict["success"] = data.extra["output"]["success"]
     if "error" in data.extra["output"]:
         output_dict["error"] = data.extra["output"]["error"]
     if "stderr" in data.extra["output"]:
